@@ -194,7 +194,27 @@ fn probe_ident(out: &mut dyn Write, s: &str) {
         Ok(i) => b(i.as_str() == s),
         Err(_) => '-',
     };
-    writeln!(out, "SM ident {} => new={} de={} desame={} ser={} asref={}", hs(s), b(new.is_ok()), b(de.is_ok()), de_same, ser, asref).unwrap();
+    // what `Deserialize` let in goes back out through `Serialize` (load, then save)
+    let deser = match &de {
+        Ok(i) => match guarded(|| plist::to_value(i)) {
+            Ok(Ok(plist::Value::String(t))) => hs(&t),
+            Ok(_) => "err".into(),
+            Err(_) => "panic".into(),
+        },
+        Err(_) => "-".into(),
+    };
+    writeln!(
+        out,
+        "SM ident {} => new={} de={} desame={} ser={} asref={} deser={}",
+        hs(s),
+        b(new.is_ok()),
+        b(de.is_ok()),
+        de_same,
+        ser,
+        asref,
+        deser
+    )
+    .unwrap();
 }
 
 /// identifiers are compared exactly; equality, hashing and set membership must agree with the text, on every hash seed
@@ -385,7 +405,33 @@ fn probe_pointtype(out: &mut dyn Write, s: &str) {
     writeln!(out, "SM ptype {} => {}", hs(s), obs).unwrap();
 }
 
+/// every probe under `catch_unwind`: a probe that panics is a line of its own
+struct Guarded<'a> {
+    out: &'a mut dyn Write,
+}
+
+impl<'a> Write for Guarded<'a> {
+    fn write(&mut self, buf: &[u8]) -> std::io::Result<usize> {
+        self.out.write(buf)
+    }
+    fn flush(&mut self) -> std::io::Result<()> {
+        self.out.flush()
+    }
+}
+
 pub fn gen(tier: &str, seed: u64, out: &mut dyn Write) {
+    // generate into memory line by line; a panicking probe loses only its own line and is reported
+    let mut buf: Vec<u8> = Vec::new();
+    let r = guarded(|| gen_inner(tier, seed, &mut buf));
+    out.write_all(&buf).unwrap();
+    if r.is_err() {
+        // the probe that was running did not finish its line: report where the stream stopped
+        let done = buf.iter().filter(|c| **c == b'\n').count();
+        writeln!(out, "SM aborted {} => outcome=panic", done).unwrap();
+    }
+}
+
+fn gen_inner(tier: &str, seed: u64, out: &mut dyn Write) {
     let thorough = tier == "thorough";
     let mut rng = Rng::new(seed ^ 0x5ca1ab1e);
     for s in name_pool() {
